@@ -135,7 +135,7 @@ PROPS = {
     "C14": {
         "level": "proof",
         "lean_modules": ["RaftVerif.Properties.C14", "RaftVerif.Properties.C12", "RaftVerif.Properties.C13"],
-        "engines": [E4("crash", 40, 400), E4("snap", 20, 200), E4D("S10-local-snapshot-finishes-after-a-received-one,stop-during-apply-then-restart,S9-snapshot-overlaps-apply"), E2_LOG, E2_SS],
+        "engines": [E4("crash", 40, 400), E4("snap", 20, 200), E4D("S10-local-snapshot-finishes-after-a-received-one,S21-crash-between-snapshot-publication-and-log-discard,stop-during-apply-then-restart,S9-snapshot-overlaps-apply"), E2_LOG, E2_SS],
         "explanation": "PARTIAL proof. Cluster level (crash = a step of the replication-layer model: log, term and vote persist as C12/C13 give them at every crash point, role and commit index are lost): C14_safety_across_crash - for a crash of any node in any reachable state and anything afterwards, what any node had applied before and what any node applies later are comparable; C14_restarted_node_can_catch_up - after the crash there is a continuation at whose end every voter, the restarted one included, holds the leader's log with the same commit index, and everything committed before the crash (in particular what the crashed node had applied) is a prefix of it. Machine-checked: what each storage returns after a crash at any point (C12 log: every byte prefix of an in-flight append; C13 term/vote file and snapshot directory: every call boundary and byte); restore() over such an image yields a well-formed node whenever the log base does not exceed the newest visible snapshot label (the code makes a snapshot visible before it trims the log); on well-formed nodes the vote handler (unconditionally), the replication handler, the commit loop and the apply loop never reach a logger.Fatal path; crash steps are part of the models of C02/C08, so one vote per term and election safety hold across restarts. NOT proved: cluster-level safety of applied sequences across restarts (C01). Search and tie: " + CLUSTER_NOTE + "; crash points are armed inside the nodes so that they die between two storage writes of one critical section (before log append / truncate / compact / discard, before SetState, before snapshot create / write / close), the image is restarted with the real constructors and all oracles continue; E2 restarts every byte-level image of every storage.",
         "assumptions": ["process-crash model (completed syscalls persist; a write may be cut at any byte: E2; between storage operations: E4)",
                         "a process abort (logger.Fatal = os.Exit) inside a walk is reported as a C14 violation with signature process-abort"],
@@ -143,7 +143,7 @@ PROPS = {
     "C15": {
         "level": "proof",
         "lean_modules": ["RaftVerif.Properties.C15"],
-        "engines": [E4("static", 40, 400), E4("crash", 30, 300), E4("snap", 20, 200), E4D("S15-sole-voter-with-nonvoter,S27-added-member-starves-after-leader-change,S14-snapshot-retransmission-never-ends"), E3_AE],
+        "engines": [E4("static", 40, 400), E4("crash", 30, 300), E4("snap", 20, 200), E4D("S15-sole-voter-with-nonvoter,S27-added-member-starves-after-leader-change,S14-snapshot-retransmission-never-ends,S21-crash-between-snapshot-publication-and-log-discard"), E3_AE],
         "explanation": "PARTIAL (liveness proper needs the timers and a network that eventually delivers: that part is checked by exploration, not proved). Machine-checked, cluster level (Proofs/ReplProgress.lean): NO reachable state of the replication-layer model is a dead end - from every reachable state (whatever crashes, partitions, lost/duplicated/reordered messages, competing candidates and half-done replications produced it) the continuation a fault-free period allows exists and ends with a voter leading a term above all earlier ones, its whole log (old log plus an entry of the new term) committed, every voter holding the same log, commit index and term (C15_convergence_possible), and every prefix any node had committed before is a prefix of that common log (C15_convergence_keeps_committed). Machine-checked, node level: the conflict hint a follower returns lets the leader's next index move strictly below the rejected previous index and never below 1 (so the back-off terminates); a sole voter wins its election without any reply, also with non-voters present (after fix S15/S25); a member learned from a configuration entry starts with next index 1 (after fix S27), so its first request is well-formed. The convergence statement itself (after faults stop: one leader, new operations commit, every replica reaches the same applied sequence, restarted/added nodes catch up by log or snapshot) is evaluated by " + CLUSTER_NOTE + ": after every walk all partitions heal, all crashed nodes restart, delivery is prompt, and within a bounded virtual time there must be exactly one leader, a fresh write must complete at it, and every running member must reach the same applied index and hash.",
         "assumptions": ["liveness is checked by bounded-time exploration, not by a theorem: a violation is a concrete non-converging schedule; absence of one is not a proof",
                         "under membership churn convergence is only demanded when the running nodes agree on the configuration and a majority of its voters is running"],
